@@ -30,6 +30,8 @@ type SubSpec struct {
 	HoldAll       bool // never settle; the controller cancels the subscription later
 	NestedTopic   int  // publish a fresh message to this topic before acking (-1: no)
 	AfterPubs     int  // phase 1 only: subscribe once this many Publish calls were started (a backlog has built up)
+	PreCancel     bool // the Subscribe context is already cancelled when Subscribe is called
+	NoRead        bool // the consumer does not read from its channel until a Close of the Pub/Sub has returned (senders stay blocked in the hand-over)
 	NestedFan     int  // on the first delivery additionally publish one message to each of this many other topics before acking
 }
 
@@ -48,7 +50,9 @@ type Scenario struct {
 	Subs          []SubSpec
 	Pubs          []PubSpec
 	YieldPermille int
+	EmptyFirst    bool // before anything else: one Publish call with no messages on topic 0 (legal; Big scenarios only - it is not part of the token streams)
 	CloseDuring   bool // Close runs concurrently with the publishers
+	CloseAfterUs  int  // CloseDuring: start the Close this long after the publishers (0: a random moment within 300 µs)
 	SecondClose   bool // a second Close call races the first
 	LateOps       bool // Publish and Subscribe after Close returned (must fail)
 	Decorators    int  // MessageTransform subscriber decorators in front of the Pub/Sub
@@ -112,6 +116,8 @@ func Run(sc Scenario) *Result {
 	message.SetVerifHook(rec.Hook)
 	defer message.SetVerifHook(nil)
 	res := &Result{Sc: sc, SubUUID: map[int]string{}}
+	closeReturned := make(chan struct{}) // closed when the first Close call of the scenario has returned
+	var closeReturnedOnce sync.Once
 
 	ps := gochannel.NewGoChannel(gochannel.Config{
 		OutputChannelBuffer:            int64(sc.Buf),
@@ -256,6 +262,10 @@ func Run(sc Scenario) *Result {
 		cancels[sid] = cancel
 		mu.Unlock()
 		rec.Log("sc", itoa(sid), itoa(spec.Topic))
+		if spec.PreCancel {
+			rec.Log("cx", itoa(sid))
+			cancel()
+		}
 		var ch <-chan *message.Message
 		var err error
 		out := "ok"
@@ -278,6 +288,19 @@ func Run(sc Scenario) *Result {
 		consumers.Add(1)
 		go func() {
 			defer consumers.Done()
+			if spec.NoRead {
+				// nobody reads: whatever is handed over stays in the hand-over until the Pub/Sub is closed; afterwards the
+				// channel (closed by then) is drained without settling anything
+				select {
+				case <-closeReturned:
+				case <-time.After(2 * waitLong):
+				}
+				for range ch {
+					rec.Log("dr", itoa(sid)) // a copy that sat in the channel's buffer; never settled
+				}
+				rec.Log("zz", itoa(sid))
+				return
+			}
 			nacks := map[int]int{}
 			distinct := 0
 			k := 0
@@ -372,6 +395,7 @@ func Run(sc Scenario) *Result {
 		done := make(chan struct{})
 		go func() {
 			defer close(done)
+			defer closeReturnedOnce.Do(func() { close(closeReturned) })
 			rec.Log("cc", itoa(cid))
 			out := "ok"
 			func() {
@@ -408,6 +432,17 @@ func Run(sc Scenario) *Result {
 		return waitCh(ch, what)
 	}
 
+	if sc.EmptyFirst {
+		func() {
+			defer func() {
+				if r := recover(); r != nil {
+					rec.Log("note", fmt.Sprint("publish panic: ", r))
+				}
+			}()
+			err := ps.Publish(topic(0))
+			rec.Log("note", fmt.Sprint("empty Publish on topic 0 returned ", err))
+		}()
+	}
 	// ---- phase 0
 	for i, s := range sc.Subs {
 		if s.Phase == 0 {
@@ -509,7 +544,11 @@ func Run(sc Scenario) *Result {
 		}
 	}
 	if sc.CloseDuring && !closed {
-		time.Sleep(time.Duration(splitmix(sc.Seed)%300) * time.Microsecond)
+		if sc.CloseAfterUs > 0 {
+			time.Sleep(time.Duration(sc.CloseAfterUs) * time.Microsecond)
+		} else {
+			time.Sleep(time.Duration(splitmix(sc.Seed)%300) * time.Microsecond)
+		}
 		closeDone = append(closeDone, doClose(0))
 		if sc.SecondClose {
 			closeDone = append(closeDone, doClose(1))
